@@ -40,7 +40,12 @@ use once_cell::sync::Lazy;
 use std::alloc::{Layout, alloc, dealloc};
 use std::cell::RefCell;
 use std::ptr::NonNull;
+#[cfg(not(zipora_verif))]
 use std::sync::atomic::{AtomicPtr, AtomicU32, AtomicU64, Ordering};
+#[cfg(zipora_verif)]
+use crate::verif::sync::atomic::{AtomicPtr, AtomicU32, AtomicU64};
+#[cfg(zipora_verif)]
+use std::sync::atomic::Ordering;
 use std::sync::{Arc, Weak};
 use std::time::{Instant, SystemTime, UNIX_EPOCH};
 
@@ -691,6 +696,8 @@ impl<T> LockFreeStack<T> {
             data: item,
             next: std::ptr::null_mut(),
         }));
+        #[cfg(zipora_verif)]
+        crate::verif::mem::born(new_node as usize, "LockFreeStack::Node");
 
         loop {
             let head = self.head.load(Ordering::Acquire);
@@ -715,12 +722,16 @@ impl<T> LockFreeStack<T> {
                 return None;
             }
 
+            #[cfg(zipora_verif)]
+            crate::verif::mem::touch(head as usize, "LockFreeStack::Node");
             let next = unsafe { (*head).next };
             if self
                 .head
                 .compare_exchange_weak(head, next, Ordering::Release, Ordering::Relaxed)
                 .is_ok()
             {
+                #[cfg(zipora_verif)]
+                crate::verif::mem::died(head as usize, "LockFreeStack::Node");
                 let data = unsafe { Box::from_raw(head).data };
                 return Some(data);
             }
